@@ -159,6 +159,7 @@ package main
 //@   ensures userErr == nil && err == nil ==> ipCertUser(state, VerifiedChains, r.RemoteAddr, user)            #C06.ip-cert @C06,C11
 //@   loop 1 (userPubKeyFP string, rangeindex int) invariant (forall j int :: 0 <= j && j <= rangeindex ==> userPubKeyFP != state.Config.DenyTrustData.KeyDenyFPsshSha256[j])  #C06.ip-deny-scan @C06
 //@ func (*RuntimeState).isAutomationUser
+//@   intmode math
 //@   reveal automationUser
 //@   ensures ret1 == nil && ret0 ==> automationUser(state, username)                                       #C08.automation-identity-is-configured @C08,C06
 //@   modifies nothing
@@ -208,7 +209,10 @@ package main
 
 // ---- C09: a sealed server signs nothing; only the right passphrase unseals it, once ---------------------------
 // The CA signers are written only while state.Mutex is held; taking the mutex forgets what was known about them.
-//@ written_under RuntimeState.Mutex : RuntimeState.Signer RuntimeState.Ed25519Signer  #C09.signer-locked @C09
+//@ written_under RuntimeState.Mutex : RuntimeState.Signer RuntimeState.Ed25519Signer RuntimeState.caCertDer  #C09.signer-locked @C09
+// a loaded signer comes with its CA certificate: established by loadSignersFromPemData (verified below), kept because
+// nothing else writes either field (the rule above) and the list only grows; assumed wherever the state is read
+//@ heapinv github.com/Cloud-Foundations/keymaster/cmd/keymasterd.RuntimeState (s *RuntimeState) :: s.Signer != nil ==> len(s.caCertDer) >= 1
 // plaintext of an armored, passphrase-protected file (uninterpreted; PGP itself is trusted)
 //@ ghost func pgpPlaintext(cipherText []byte, password []byte) []byte
 //@ func pgpDecryptFileData
@@ -219,6 +223,7 @@ package main
 //@   requires state.Signer == nil                                                  #C09.load-once @C09
 //@   ensures ret0 != nil ==> state.Signer == nil                                   #C09.failed-load-stays-sealed @C09
 //@   ensures ret0 == nil ==> state.Signer != nil                                   #C09.loaded @C09
+//@   ensures ret0 == nil ==> len(state.caCertDer) >= 1                              #C09.ca-certificate-loaded-with-the-signer @C09,C10
 //@ func (*RuntimeState).tryLoadAndVerifySigners
 //@   atcall (*RuntimeState).loadSignersFromPemData overrides C09.load-locked (st *RuntimeState, signerPem []byte, ed25519Pem []byte) :: true #C09.startup-before-any-listener @C09
 //@   atcall (*RuntimeState).loadSignersFromPemData overrides C09.load-once (st *RuntimeState, signerPem []byte, ed25519Pem []byte) :: true #C09.startup-first-load @C09
@@ -466,6 +471,7 @@ package main
 //@ opaque func adminDirectoryVerdict(state *RuntimeState, user string) bool = inStrings(state.Config.Base.AdminUsers, user) || (exists g int :: 0 <= g && g < len(state.Config.Base.AdminGroups) && inStrings(directoryGroups(state, user), state.Config.Base.AdminGroups[g]))
 
 //@ func (*RuntimeState)._IsAdminUser
+//@   intmode math
 //@   reveal adminDirectoryVerdict
 //@   ensures ret1 == nil && ret0 ==> adminDirectoryVerdict(state, user)                                    #C08.admin-means-configured-name-or-group @C08
 //@   ensures ret1 == nil && !ret0 ==> !adminDirectoryVerdict(state, user)                                  #C08.configured-admins-are-recognised @C08
@@ -830,3 +836,7 @@ package main
 // ---- C08: the administrator verdict cache is written only by the administrator check itself (whose contract says
 // with which value): no other function can promote anybody to administrator through it
 //@ callers github.com/Cloud-Foundations/keymaster/keymasterd/admincache.Cache).Put only (*RuntimeState).IsAdminUser  #C08.only-the-admin-check-writes-the-admin-cache @C08
+
+// ---- C10 / C19: whatever key file is submitted, the X.509 issuing path does not panic ---------------------------
+//@ func (*RuntimeState).postAuthX509CertHandler
+//@   nopanic kinds typeassert nilresult index slice divzero @C10,C19
